@@ -3,6 +3,7 @@ package syslwrapper
 
 import (
 	"fmt"
+	"sort"
 	"strings"
 
 	"github.com/anz-bank/sysl/pkg/sysl"
@@ -440,8 +441,14 @@ func (am *AppMapper) MapType(t *sysl.Type) *Type {
 	case *sysl.Type_Enum_:
 		simpleType = "enum"
 		enum = make(map[int64]string)
-		for str, index := range t.GetEnum().GetItems() {
-			enum[index] = str
+		// names that share a number overwrite each other: visit them in name order
+		names := make([]string, 0, len(t.GetEnum().GetItems()))
+		for str := range t.GetEnum().GetItems() {
+			names = append(names, str)
+		}
+		sort.Strings(names)
+		for _, str := range names {
+			enum[t.GetEnum().GetItems()[str]] = str
 		}
 	case *sysl.Type_Set:
 		simpleType = "set"
